@@ -84,6 +84,8 @@ type pathState struct {
 	dom       map[string]*byteSet
 	entangled map[string]bool
 	fastPath  int64 // decisions settled by the byte-domain fast path
+	termLimit int64
+	termMsg   string
 	asserts   int64
 	trackPoss bool
 	possDiff  bool
